@@ -15,7 +15,8 @@
 //   - ZIP member order          = Deck.PartOrder (relative order of the slide members) and
 //     Deck.PartsFirst (slide members before / after the infrastructure members); Members() returns
 //     the member list for callers that want any other arrangement
-//   - optional parts            = Deck.Omit* switches (docProps, theme/master/layout, slide .rels)
+//   - optional parts            = Deck.Omit* switches (docProps, theme/master/layout, slide .rels);
+//     per slide: Slide.Notes (notes slide + relationship), Slide.NoRels (no .rels companion part)
 //   - absent declared part      = Slide.Absent (sldId and Relationship exist, the part does not)
 //   - decoys                    = Deck.Decoys: slide parts that exist in the archive but are not in
 //     sldIdLst (optionally still related from presentation.xml.rels, like a deleted slide that a
@@ -66,6 +67,9 @@ type Slide struct {
 	Notes    string     // optional notes slide (ppt/notesSlides/notesSlide<k>.xml + slide .rels)
 	RawShape string     // raw XML appended inside p:spTree (for checks that need other shapes)
 
+	// NoRels: this slide has no ppt/slides/_rels/<slide>.xml.rels companion part although other
+	// slides may have one (ignored when the slide has Notes, which need the relationship).
+	NoRels bool
 	// Absent: the slide is declared (sldId + Relationship) but its part is not written.
 	Absent bool
 	// Related (decoys only): the decoy also has a <Relationship> in presentation.xml.rels although
@@ -348,7 +352,7 @@ func (d *Deck) Members() []zipw.Member {
 			fmt.Fprintf(&r, `<Relationship Id="rId2" Type="%snotesSlide" Target="%s"/>`, relT, RelTo(path.Dir(s.Path), notesPath))
 		}
 		r.WriteString(`</Relationships>`)
-		if s.Notes != "" || !d.OmitSlideRels {
+		if s.Notes != "" || (!d.OmitSlideRels && !s.NoRels) {
 			ms = append(ms, zipw.M(relsPathFor(s.Path), r.String()))
 		}
 		if s.Notes != "" {
